@@ -104,8 +104,8 @@ func c08pairs(rs []dnsdata.MapRecord) string {
 }
 
 // c08convert = what ConvertLn says about one line. The empty line is out of ConvertLn's domain
-// (`text[:1]`): inside ApplyDiff a bare `+` / `-` makes it read the byte after the line in the
-// scanner's buffer (the newline), which is not a record type: rejected.
+// (`text[:1]`); neither the compiler nor ApplyDiff hand it one (lines / payloads shorter than 2 bytes
+// are skipped), so it never gets into a dictionary.
 func c08convert(c *dnsdata.Codec, line []byte) (res string) {
 	if len(line) == 0 {
 		return "!"
@@ -128,7 +128,8 @@ func c08codecLine(line []byte) ([]byte, bool) {
 	return l, !(len(l) < 2 || bytes.HasPrefix(l, []byte("#")))
 }
 
-// applydiff.go: the payload ConvertLn sees for a diff line (ok=false: skipped or bad op)
+// applydiff.go: the payload ConvertLn sees for a diff line (ok=false: skipped or bad op): the rest of
+// the line after the operation byte goes through the compiler's filter
 func c08payload(line []byte) ([]byte, bool) {
 	if len(line) < 1 || line[0] == '#' {
 		return nil, false
@@ -136,7 +137,7 @@ func c08payload(line []byte) ([]byte, bool) {
 	if line[0] != '+' && line[0] != '-' {
 		return nil, false
 	}
-	return line[1:], true
+	return c08codecLine(line[1:])
 }
 
 type c08dict struct {
@@ -550,12 +551,12 @@ func c08runMtime(f []string) (string, string) {
 	if fresh.sorted == after.sorted {
 		eq = "1"
 	}
-	verdict := "-"
-	if tA == tD && tD == tB {
-		// equal mtimes: the property must hold
-		verdict = "ok"
-		if eq != "1" || strings.HasPrefix(res, "err:") {
-			verdict = "FAIL:equal-mtimes-but-differs"
+	// the statement has no mtime precondition: the patched database must equal the fresh compile
+	verdict := "ok"
+	if eq != "1" || strings.HasPrefix(res, "err:") {
+		verdict = "FAIL:equal-mtimes-but-differs"
+		if !(tA == tD && tD == tB) {
+			verdict = "FAIL:differs-from-fresh-compile(mtimes-differ)"
 		}
 	}
 	if strings.HasPrefix(res, "err:") && after.raw != cur.raw {
@@ -585,17 +586,15 @@ func c08preprocess(raw []string, serial uint32) []string {
 	return strings.Split(s, "\n")
 }
 
-// lines the compiler and ApplyDiff treat differently (leading spaces, one-byte lines) are findings
-// reported separately (tier `witness`): keep them out of the regular files
-func c08clean(lines []string) []string {
-	var out []string
-	for _, l := range lines {
-		if strings.HasPrefix(l, " ") || (len(l) < 2 && !strings.HasPrefix(l, "#") && l != "") {
-			continue
-		}
-		out = append(out, l)
+// c08oddLine: lines the compiler filters (parser.go: leading blanks trimmed, lines shorter than 2
+// bytes skipped). Preprocess copies them as they are, so they occur in preprocessed files and in
+// diffs between them; ApplyDiff must filter the payloads the same way. (`%`, `Z` are not used here:
+// Preprocess interprets them by the first byte, a blank in front would smuggle them past it.)
+func (g *gen) c08oddLine(line string) string {
+	if g.chance(1, 3) || line == "" || strings.HasPrefix(line, "%") || strings.HasPrefix(line, "Z") {
+		return g.pick([]string{"C", "+", "-", "x", " ", "=", "&", "  ", "   ", " C", "  +"})
 	}
-	return out
+	return g.pick([]string{" ", "  ", "     "}) + line
 }
 
 var c08nets = []string{"10.0.0.0/8", "10.1.0.0/16", "10.1.2.0/24", "192.168.0.0/16", "192.168.7.0/24", "0.0.0.0/0", "2001:db8::/32", "2001:db8:1::/48", "::/0", "172.16.0.0/12", "10.200.0.0/13"}
@@ -620,7 +619,11 @@ func (g *gen) c08newLine(df *dataFile, o dataOpts) string {
 	} else if g.bool() {
 		name = g.label(o) + "." + z.name
 	}
-	return g.recordLine(df, o, name, z.name)
+	line := g.recordLine(df, o, name, z.name)
+	if g.chance(1, 6) {
+		return g.c08oddLine(line) // leading blanks / a one-byte line
+	}
+	return line
 }
 
 // c08edit: random edits of a raw data file
@@ -721,6 +724,13 @@ func (g *gen) c08diff(a, b []string) []string {
 	if g.chance(1, 6) {
 		out = append(out, "")
 	}
+	// noise: payloads the compiler would not read either (bare operation, shorter than 2 bytes after
+	// trimming, comments) are skipped, whatever the codec would say about them
+	if g.chance(1, 3) {
+		for i, n := 0, 1+g.intn(2); i < n; i++ {
+			out = append(out, g.pick([]string{"+", "-", "+ ", "-   ", "+C", "-C", "- x", "+  %", "+  #note", "-#note", "+ #", "-#"}))
+		}
+	}
 	// a redundant pair: the same line added and removed (A ⊎ plus = B ⊎ minus still holds)
 	if len(a) > 0 && g.chance(1, 6) {
 		l := g.pick(a)
@@ -743,15 +753,26 @@ func (g *gen) c08failing(cur, b []string) []string {
 		bad = "-+absent.ex.com,10.9.9.9,60"
 		if len(cur) > 0 && g.bool() {
 			for _, l := range cur {
-				if strings.HasPrefix(l, "+") {
-					bad = "-" + l + "9" // same owner, other value (weight / trailing field differs)
+				if strings.HasPrefix(l, "+") && len(l) > 2 {
+					// same owner (a present key), an address no generated line has
+					owner := l[1:]
+					if j := strings.IndexAny(owner, ",:"); j >= 0 {
+						owner = owner[:j]
+					}
+					bad = "-+" + owner + ",10.250.250.250,60"
 					break
 				}
 			}
 		}
-	case 2: // one removal too many of a present line
-		if len(cur) > 0 {
-			l := g.pick(cur)
+	case 2: // one removal too many of a present line (one that reaches the codec)
+		var real []string
+		for _, l := range cur {
+			if _, ok := c08codecLine([]byte(l)); ok {
+				real = append(real, l)
+			}
+		}
+		if len(real) > 0 {
+			l := g.pick(real)
 			n := has[l]
 			for _, d := range out {
 				if d == "-"+l {
@@ -774,8 +795,8 @@ func (g *gen) c08failing(cur, b []string) []string {
 		bad = g.pick([]string{"*+a.ex.com,1.2.3.4", " +a.ex.com,1.2.3.4", "a", "=a.ex.com,1.2.3.4", "!m1,10.0.0.0,8,aa"})
 	case 5: // the codec rejects the line
 		bad = g.pick([]string{`++bad.loc.ex.com,1.2.3.4,,,\9z`, "-%aa,not-a-cidr,m1", `-'t.ex.com,x,60,,toolongloc`})
-	case 6: // bare operation
-		bad = g.pick([]string{"+", "-"})
+	case 6: // a rejected line behind leading blanks: trimmed, then still rejected
+		bad = g.pick([]string{"+  ?unknown.prefix,1.2.3.4", "-   Xfoo", "+ $x", `-  't.ex.com,x,60,,toolongloc`})
 	default: // removing a range point that is not there
 		bad = "-!m1,10.77.0.0,16,aa"
 	}
@@ -787,7 +808,10 @@ func (g *gen) c08failing(cur, b []string) []string {
 func (g *gen) c08rawFile(o dataOpts, serial uint32, bulk int) (*dataFile, []string) {
 	for {
 		df := g.genDataFile(o)
-		raw := c08clean(df.lines)
+		raw := append([]string{}, df.lines...)
+		for i, n := 0, g.intn(3); i < n && len(raw) > 0; i++ {
+			raw = append(raw, g.c08oddLine(g.pick(raw)))
+		}
 		// bulk: many lines over few owners (many values under one key, equal lines)
 		for i := 0; i < bulk; i++ {
 			raw = append(raw, g.c08newLine(df, o))
@@ -834,6 +858,10 @@ func c08emitMtime(w *bufio.Writer, class string, tA, tD, tB uint32, a, diff, b [
 func c08gen(g *gen, tier string, w *bufio.Writer) {
 	if tier == "witness" {
 		c08witness(w)
+		return
+	}
+	if tier == "fixed-line-filter" {
+		c08fixedLineFilter(w)
 		return
 	}
 	nChains, nMtime := 28, 8
@@ -913,6 +941,12 @@ func c08gen(g *gen, tier string, w *bufio.Writer) {
 			tB = tA + 3000
 		}
 		dot := "." + g.pick([]string{"dot.test", "ex.com"}) + "," + g.pick([]string{"", "10.0.0.1"}) + ",a,300"
+		if i%4 != 0 {
+			// `.` lines with differing mtimes are the known finding C08-dot-serial-mtime (witness tier);
+			// a preprocessed `Z` line carries its serial explicitly and must be immune to mtimes
+			dot = "Z" + g.pick([]string{"dot.test", "ex.com"}) + ",a.ns.dot.test,hostmaster.dot.test," +
+				strconv.Itoa(1+g.intn(100000)) + ",16384,2048,1048576,2560,2560"
+		}
 		keep := "+www.dot.test,10.1.1.1,60"
 		var a, b []string
 		switch i % 4 {
@@ -933,20 +967,41 @@ func c08gen(g *gen, tier string, w *bufio.Writer) {
 	}
 }
 
-// c08witness: the input classes kept out of the regular generator because the real code violates
-// the statement on them (see report)
+// c08witness: the input class kept out of the regular generator because the real code violates the
+// statement on it (known finding C08-dot-serial-mtime)
 func c08witness(w *bufio.Writer) {
+	for _, class := range []string{"rdb1", "rdb2"} {
+		// `.` lines take the SOA serial from the mtime of the file being processed
+		dot, keep := ".dot.test,10.0.0.1,a,300", "+www.dot.test,10.1.1.1,60"
+		c08emitMtime(w, class, 1700000000, 1700001000, 1700001000, []string{dot, keep},
+			[]string{"-" + keep, "++www.dot.test,10.1.1.2,60"}, []string{dot, "+www.dot.test,10.1.1.2,60"})
+		c08emitMtime(w, class, 1700000000, 1700005000, 1700005000, []string{dot, keep}, []string{"-" + dot}, []string{keep})
+		c08emitMtime(w, class, 1700000000, 1700002000, 1700003000, []string{keep}, []string{"+" + dot}, []string{keep, dot})
+	}
+}
+
+// c08fixedLineFilter (tier `fixed-line-filter`, corpus/C08/fixed-line-filter.ops): the former
+// witnesses of C08-line-filter (repaired: ApplyDiff filters payloads the way the compiler filters
+// data lines); they must pass now
+func c08fixedLineFilter(w *bufio.Writer) {
 	serial := uint32(1700000000)
 	for _, class := range []string{"rdb1", "rdb2"} {
-		// a preprocessed file may keep a line with leading spaces (the compiler trims it, the diff
-		// payload goes to the codec untrimmed)
+		// a preprocessed file may keep a line with leading spaces (the compiler trims it)
 		a := []string{"+a.ex.com,10.0.0.1,60", "  +b.ex.com,10.0.0.2,60"}
 		b := []string{"+a.ex.com,10.0.0.1,60"}
 		c08emitChain(w, class, serial, a, [][2][]string{{{"-  +b.ex.com,10.0.0.2,60"}, b}}, []bool{false})
-		// a one-byte line is skipped by the compiler but converted by ApplyDiff
+		// a one-byte line is skipped by the compiler
 		a = []string{"+a.ex.com,10.0.0.1,60", "+"}
 		c08emitChain(w, class, serial, a, [][2][]string{{{"-+"}, b}}, []bool{false})
 		b2 := []string{"+a.ex.com,10.0.0.1,60", "C"}
 		c08emitChain(w, class, serial, b, [][2][]string{{{"+C"}, b2}}, []bool{false})
+		// both directions in one chain, with bare operations and comment payloads as noise; the trimmed
+		// line and the untrimmed one are the same record twice
+		b3 := []string{"+a.ex.com,10.0.0.1,60", "   +a.ex.com,10.0.0.1,60", "x"}
+		c08emitChain(w, class, serial, b, [][2][]string{
+			{{"+   +a.ex.com,10.0.0.1,60", "+x", "+", "-", "+  #c", "- "}, b3},
+			{{"-+a.ex.com,10.0.0.1,60", "-x"}, []string{"   +a.ex.com,10.0.0.1,60"}},
+			{{"-  ?rejected,after,trimming"}, nil},
+		}, []bool{false, false, true})
 	}
 }
